@@ -9,7 +9,7 @@ from ..core import Report
 from ..eqterms import equal, explain
 from ..model import AnalysisError, Program
 from ..refs import eval_ref_method
-from ..terms import C, Env, Interp, find_unknown, has_unknown, show, walk
+from ..terms import C, Env, Interp, find_unknown, has_unknown, show, subst, walk
 from .bij import SELF, method_site
 from .c07 import compare
 
@@ -63,6 +63,39 @@ def rule_flatten(prog: Program, rep: Report, R: str):
     _merge_chains(prog, rep, R, c)
 
 
+def as_flatmap(t):
+    """Canonical 'flat-map' of a flattening pass, from either spelling:
+    fold(S, acc -> (extend(acc, A) if c else append(acc, e)), [])   or   [x for e in S for x in (A if c else (e,))]
+    both become ('flatmap', lam e: (A if c else (e,)), S)."""
+    if t[0] == "fold" and t[3] == ("tuple", (("list", ()),)) and t[2][0] == "lam" and t[2][1] == 2:
+        lvl = t[2][3] if len(t[2]) > 3 else 0
+        acc, e = ("bv", lvl, 1), ("bv", lvl, 0)
+        body = t[2][2][1][0] if t[2][2][0] == "tuple" and len(t[2][2][1]) == 1 else None
+
+        def piece(b):
+            if b is None:
+                return None
+            if b[0] == "ite":
+                a1, a2 = piece(b[2]), piece(b[3])
+                return None if a1 is None or a2 is None else ("ite", b[1], a1, a2)
+            if b[0] == "call" and b[1] == ("ext", "list.extend") and b[2][0] == acc:
+                return b[2][1]
+            if b[0] == "call" and b[1] == ("ext", "list.append") and b[2][0] == acc:
+                return ("tuple", (b[2][1],))
+            return None
+        pc = piece(body)
+        if pc is not None and not any(z == acc for z in walk(pc)):
+            return ("flatmap", ("lam", 1, pc, lvl), t[1])
+    if t[0] == "map" and t[1][0] == "lam" and t[1][1] == 1:
+        inner = t[1][2]
+        if inner[0] == "map" and inner[1][0] == "lam" and inner[1][1] == 1:
+            ilam = inner[1]
+            ilvl = ilam[3] if len(ilam) > 3 else None
+            if ilam[2] == ("bv", ilvl, 0):
+                return ("flatmap", ("lam", 1, inner[2]) + tuple(t[1][3:]), t[2])
+    return t
+
+
 def _merge_chains(prog, rep, R, c):
     owner, fn = prog.method(CHAIN, "merge_chains")
     site = method_site(prog, c, "merge_chains")
@@ -114,7 +147,14 @@ def _merge_chains(prog, rep, R, c):
            "        if isinstance(b, Chain):\n            acc.extend(b.bijections)\n"
            "        else:\n            acc.append(b)\n    return (acc,)\n")
     want = eval_ref_method(prog, c, ref, [("sym", S.upper())])
-    compare(rep, R, site, "Chain.merge_chains:pass", got, want, "one flattening pass")
+    def norm_pass(tt):
+        if tt[0] == "tuple" and len(tt[1]) == 1:
+            x = tt[1][0]
+            if x[0] == "call" and x[1] in (("ext", "builtins.list"), ("ext", "builtins.tuple")) and len(x[2]) == 1:
+                x = x[2][0]
+            return ("tuple", (as_flatmap(x),))
+        return tt
+    compare(rep, R, site, "Chain.merge_chains:pass", norm_pass(got), norm_pass(want), "one flattening pass")
     # loop continues while a nested Chain remains
     tst = ast.Assign([ast.Name("_t", ast.Store())], w.test)
     ast.fix_missing_locations(tst)
@@ -161,8 +201,17 @@ def rule_merge_transforms(prog: Program, rep: Report, R: str):
     pro_stmts = [s for s in body[:wi] if not isinstance(s, ast.If)]
     pro = eval_stmts(prog, c, pro_stmts, [], [V, acc])
     want_pro = ("tuple", (("attr", SELF, "base_dist"), ("list", (("attr", SELF, "bijection"),))))
-    compare(rep, R, site, "merge_transforms:start", pro, want_pro, "initial (level, collected)")
     got = eval_stmts(prog, c, w.body, [V, acc], [V, acc])
+    # the walk may start at self with nothing collected (the loop then handles the outermost level itself):
+    # one application of the loop step to that start must give the peeled start
+    if pro == ("tuple", (SELF, ("list", ()))):
+        Vs0, As0 = ("sym", V.upper()), ("sym", acc.upper())
+        stepped = subst(got, lambda s2: SELF if s2 == Vs0 else (("list", ()) if s2 == As0 else None))
+        stepped = subst(stepped, lambda s2: ("list", s2[2][0][1] + (s2[2][1],)) if s2[0] == "call" and s2[1] == ("ext", "list.append")
+                        and s2[2][0][0] == "list" else None)
+        compare(rep, R, site, "merge_transforms:start", stepped, want_pro, "(level, collected) after the first step from (self, [])")
+    else:
+        compare(rep, R, site, "merge_transforms:start", pro, want_pro, "initial (level, collected)")
     Vs, As = ("sym", V.upper()), ("sym", acc.upper())
     want = ("tuple", (("attr", Vs, "base_dist"),
                       ("call", ("ext", "list.append"), (As, ("attr", Vs, "bijection")), ())))
